@@ -694,12 +694,63 @@ Definition oracle_model (op : bytes) (args : list bytes) : bytes :=
   match oracle_model_macros op args with Some r => r | None =>
   bs "UNKNOWN-OP" end end end end end end.
 
+(* ---- per-property view of the specification -------------------------------------------------
+   The same operation can serve several properties; each property judges only what IT states. *)
+Fixpoint starts_with (p s : bytes) : bool :=
+  match p, s with
+  | [], _ => true
+  | x :: p', y :: s' => (x =? y) && starts_with p' s'
+  | _ :: _, [] => false
+  end.
+(* split a text at every occurrence of `sep` (non-empty) *)
+Fixpoint split_on_aux (fuel : nat) (sep cur s : bytes) : list bytes :=
+  match fuel with
+  | O => [rev cur ++ s]
+  | S f =>
+    match s with
+    | [] => [rev cur]
+    | c :: r => if starts_with sep s then rev cur :: split_on_aux f sep [] (skipn (List.length sep) s)
+                else split_on_aux f sep (c :: cur) r
+    end
+  end.
+Definition split_on (sep s : bytes) : list bytes := split_on_aux (S (List.length s)) sep [] s.
+Definition words (s : bytes) : list bytes := split_on sp s.
+(* a step of a history transcript: "<out> <fmt_locale ... to_string> <same|DIFF|REPARSE-ERR>" *)
+Definition step_tostring (st : bytes) : bytes := match rev (words st) with _ :: t :: _ => t | _ => [] end.
+Definition step_reparse (st : bytes) : bytes := match rev (words st) with t :: _ => t | _ => [] end.
+(* (the "error left the value unchanged" law is C10's: its LAWFAIL entries are not steps) *)
+Definition hist_steps (impl : bytes) : list bytes :=
+  match impl with [] => [] | _ => filter (fun st => negb (starts_with (bs "LAWFAIL") st)) (split_on sep_hist impl) end.
+Definition last_word (s : bytes) : bytes := match rev (words s) with t :: _ => t | _ => [] end.
+
+(* Some r = this property's own verdict on the operation; None = use the default specification *)
+Definition spec_for_property (prop op : bytes) (args : list bytes) (impl : bytes) : option (option bool) :=
+  let is p := beqb prop (bs p) in
+  let o p := beqb op (bs p) in
+  if (is "C07"%string || is "C08"%string) && (o "maximize"%string || o "minimize"%string || o "li_maximize"%string || o "li_minimize"%string) then
+    (* purely algebraic laws, evaluated on the library alone inside the harness (LAWFAIL answers) *)
+    Some None
+  else if is "C04"%string && o "loc_hist"%string then
+    Some (if starts_with (bs "BAD") impl then None
+          else Some (forallb (fun st => canon_locale_text (step_tostring st)) (hist_steps impl)))
+  else if is "C05"%string && o "loc_hist"%string then
+    Some (if starts_with (bs "BAD") impl then None
+          else Some (forallb (fun st => beqb (step_reparse st) (bs "same")) (hist_steps impl)))
+  else if is "C04"%string && (o "langid"%string || o "li_from_parts"%string) then
+    Some (if starts_with (bs "OK ") impl || o "li_from_parts"%string then
+            (if starts_with (bs "BADARG") impl then None
+             else Some (canon_langid_text (if o "li_from_parts"%string then step_tostring impl else last_word impl)))
+          else None)
+  else if is "C05"%string && (o "loc_canonicalize"%string || o "li_canonicalize"%string) then Some None
+  else None.
+
 (* None = no specification attached to this operation (only the model is compared) *)
-Definition oracle_spec (op : bytes) (args : list bytes) (impl : bytes) : option bool :=
+Definition oracle_spec (prop op : bytes) (args : list bytes) (impl : bytes) : option bool :=
+  match spec_for_property prop op args impl with Some r => r | None =>
   match oracle_spec_subtags op args impl with Some r => Some r | None =>
   match oracle_spec_likely op args impl with Some r => Some r | None =>
   match oracle_spec_langid op args impl with Some r => Some r | None =>
   match oracle_spec_locale op args impl with Some r => Some r | None =>
   match oracle_spec_serde op args impl with Some r => Some r | None =>
   match oracle_spec_macros op args impl with Some r => Some r | None =>
-  None end end end end end end.
+  None end end end end end end end.
